@@ -177,7 +177,7 @@ impl Prop for C19 {
         vec!["abstracts with ports are outside the claim (import_abstract_port is an acknowledged todo!())".into()]
     }
     fn plan(&self, tier: Tier) -> Vec<GenSpec> {
-        vec![GenSpec::random("roundtrip", tier.pick(30_000, 1_200_000)), GenSpec::random("message-faults", tier.pick(1_500, 150_000))]
+        vec![GenSpec::random("roundtrip", tier.pick(30_000, 1_200_000)), GenSpec::random("message-faults", tier.pick(1_500, 150_000)), GenSpec::random("export-beside-readers", tier.pick(300, 6_000))]
     }
     fn run_case(&self, cx: &mut Cx) {
         let g = rand_placed_lib(&mut cx.rng, 6, true);
@@ -243,7 +243,57 @@ impl Prop for C19 {
                         }
                     }
                 }
+                // the trip is a fixed point: exporting what was imported gives the first message again (same cells, once each, same content)
+                match guard(|| ProtoExporter::export(&back)) {
+                    Ok(Ok(p2)) => {
+                        if p2 != p {
+                            let (n1, n2): (Vec<&String>, Vec<&String>) = (p.cells.iter().map(|c| &c.name).collect(), p2.cells.iter().map(|c| &c.name).collect());
+                            cx.violation(if n1 != n2 { "re-export|cell-list-differs" } else { "re-export|message-differs" }, json!({"first": n1, "second": n2}));
+                        } else {
+                            cx.count("re_export_is_fixed_point");
+                        }
+                    }
+                    Ok(Err(e)) => cx.violation("re-export|error", json!({"error": format!("{:?}", e).chars().take(300).collect::<String>()})),
+                    Err(c) => cx.violation(&format!("re-export|panic|{}|{}", c.site(), c.norm_msg()), json!({"panic": c.msg})),
+                }
                 cx.sample(|| json!({"library": want.0, "cells": want.1.keys().collect::<Vec<_>>()}));
+            }
+            "export-beside-readers" => {
+                // Export is a read of the library: it has to work while other readers hold read guards on the cells (a viewer, a second exporter,
+                // the caller's own loop over `lib.cells`). Here this thread holds a read guard on every cell while a second thread exports.
+                // A shared reader can never block another reader, so an export that has not finished after 20 s, and finishes once the guards
+                // are dropped, was waiting for exclusive access.
+                static BLOCKED: std::sync::atomic::AtomicBool = std::sync::atomic::AtomicBool::new(false);
+                if BLOCKED.load(std::sync::atomic::Ordering::Relaxed) {
+                    cx.count("export_beside_readers_skipped_after_a_blocked_export");
+                    return;
+                }
+                cx.eval();
+                cx.nontrivial(crate::rt::prng::strhash(&format!("{:?}", want)) ^ 0xbeef);
+                let lib = &g.lib;
+                let guards: Vec<_> = lib.cells.iter().filter_map(|c| c.read().ok()).collect();
+                let (tx, rx) = std::sync::mpsc::channel();
+                let verdict = std::thread::scope(|sc| {
+                    let h = sc.spawn(move || {
+                        let r = guard(|| ProtoExporter::export(lib).map_err(|e| format!("{:?}", e).chars().take(300).collect::<String>()));
+                        let _ = tx.send(());
+                        r
+                    });
+                    let in_time = rx.recv_timeout(std::time::Duration::from_secs(20)).is_ok();
+                    drop(guards);
+                    (in_time, h.join())
+                });
+                match verdict {
+                    (false, _) => {
+                        BLOCKED.store(true, std::sync::atomic::Ordering::Relaxed);
+                        cx.violation("export-beside-readers|blocked-until-readers-left", json!({"cells": p.cells.iter().map(|c| c.name.clone()).collect::<Vec<_>>()}))
+                    }
+                    (true, Ok(Ok(Ok(p2)))) if p2 == p => cx.count("exports_beside_readers_equal"),
+                    (true, Ok(Ok(Ok(_)))) => cx.violation("export-beside-readers|message-differs", json!({})),
+                    (true, Ok(Ok(Err(e)))) => cx.violation("export-beside-readers|error", json!({"error": e})),
+                    (true, Ok(Err(c))) => cx.violation(&format!("export-beside-readers|panic|{}|{}", c.site(), c.norm_msg()), json!({"panic": c.msg})),
+                    (true, Err(_)) => cx.inconclusive("exporter thread died"),
+                }
             }
             "message-faults" => {
                 let ms = mutants(&p);
